@@ -35,6 +35,7 @@ type logical struct {
 	HdrValues []string
 	HdrLookup string // the casing used in expressions/templates
 	Cookie    string
+	DupCookie bool
 	BodyKind  string
 	BodyField string
 }
@@ -112,7 +113,19 @@ func genLogical(t *rapid.T) logical {
 
 	if rapid.Bool().Draw(t, "withCookie") {
 		l.Cookie = rapid.SampledFrom([]string{"abc123", "s3ss10n"}).Draw(t, "cookie")
-		l.LR.Headers = append(l.LR.Headers, vkit.HeaderKV{Name: "Cookie", Value: "other=1; sid=" + l.Cookie + "; theme=dark"})
+		value := "other=1; sid=" + l.Cookie + "; theme=dark"
+
+		// the same cookie name a second time with another value: every entry point has to resolve it the same way
+		switch rapid.IntRange(0, 3).Draw(t, "duplicateCookie") {
+		case 0:
+			value += "; sid=second-" + l.Cookie
+			l.DupCookie = true
+		case 1:
+			value = "sid=" + l.Cookie + "; sid=; other=2"
+			l.DupCookie = true
+		}
+
+		l.LR.Headers = append(l.LR.Headers, vkit.HeaderKV{Name: "Cookie", Value: value})
 	}
 
 	l.BodyKind = rapid.SampledFrom([]string{"none", "json", "form", "yaml", "text"}).Draw(t, "bodyKind")
@@ -415,6 +428,7 @@ func TestEntryPointsAgree(t *testing.T) {
 		vkit.S.Label("body=" + l.BodyKind)
 		vkit.S.LabelIf(k.MultiValue, "multi_valued_pipeline_header")
 		vkit.S.LabelIf(len(l.HdrValues) >= 2, "multi_valued_request_header")
+		vkit.S.LabelIf(l.DupCookie, "duplicate_cookie_name")
 		vkit.S.LabelIf(strings.Contains(l.LR.RawPath, "%"), "encoded_path")
 		vkit.S.Label(fmt.Sprintf("decision_positive=%v", obs[vkit.EntryDecision].Positive))
 
